@@ -682,12 +682,14 @@ pub fn run(run: &mut Run) -> Result<(), String> {
                 plan.lines = Some(b(2, 0));
                 // no null moves in these walks: every root is reached by legal play from a start
                 plan.walk = Some((240, 40, 2, 0, b(1, 0)));
+                plan.march = Some((240, 80, 2, b(0, 0)));
             } else {
                 plan.start = Some(b(5, 0));
                 plan.r960 = Some(b(3, 0));
                 plan.dfrc = Some((0..960, 1, b(1, 0)));
                 plan.lines = Some(b(3, 0));
                 plan.walk = Some((960, 80, 1, 0, b(1, 0)));
+                plan.march = Some((960, 100, 1, b(1, 0)));
             }
             run_plan(run, &plan, mon.as_ref(), &NoCand);
             if prop == "C06" {
@@ -750,6 +752,9 @@ pub fn run(run: &mut Run) -> Result<(), String> {
                 plan.dfrc = Some((0..960, 16, b(0, 0)));
                 plan.lines = Some(b(2, 1));
                 plan.walk = Some((240, 40, 2, 7, b(1, 1)));
+                if prop == "C07" {
+                    plan.march = Some((120, 80, 2, b(0, 0)));
+                }
                 plan.raws.push((Box::new(Material), b(0, 0)));
                 if prop == "C07" {
                     plan.raws.push((Box::new(LongFen), b(1, 0)));
@@ -797,6 +802,9 @@ pub fn run(run: &mut Run) -> Result<(), String> {
                 plan.dfrc = Some((0..960, 1, b(0, 0)));
                 plan.lines = Some(b(3, 2));
                 plan.walk = Some((960, 60, 1, 7, b(1, 1)));
+                if prop == "C07" {
+                    plan.march = Some((960, 100, 1, b(0, 0)));
+                }
                 plan.raws.push((Box::new(Material), b(1, 0)));
                 plan.raws.push((Box::new(PromoUniverse { sliders: vec![Kind::R, Kind::B, Kind::Q] }), b(1, 0)));
                 plan.raws.push((Box::new(EpStale), b(0, 0)));
